@@ -208,6 +208,12 @@ func (l *Loop) Quiesce(maxRounds int) bool {
 	defer func() { l.Faults = saveF }()
 	stable := 0
 	last := ""
+	if maxRounds < 40 {
+		// the phase ends by itself once nothing changes for three rounds; a
+		// generous cap only matters when the random phase stopped far from the
+		// end (step cap), where a tight cap would turn bad luck into a verdict
+		maxRounds = 40
+	}
 	for r := 0; r < maxRounds; r++ {
 		w.Advance(time.Second)
 		for _, a := range l.Enabled() {
